@@ -354,6 +354,297 @@ def handleGgm (toks : List String) : String :=
     | _, _, _, _, _ => "bad-op"
   | _ => "bad-op"
 
+/-! ### scalars mod ℓ, ristretto255, PPOPRF -/
+
+def rops : GroupOps Ristretto.Point := Ristretto.ops
+
+def parseScalar (s : String) : Option Nat := (Bytes.ofHex s).bind Scalar25519.fromCanonicalBytes
+
+def sc (n : Nat) : String := Bytes.toHex (Scalar25519.toBytes n)
+
+def handleScalar (toks : List String) : String :=
+  match toks with
+  | ["sc.bin", op, a, b] =>
+    match parseScalar a, parseScalar b with
+    | some x, some y =>
+      match op with
+      | "add" => "ok " ++ sc (Scalar25519.add x y)
+      | "sub" => "ok " ++ sc (Scalar25519.sub x y)
+      | "mul" => "ok " ++ sc (Scalar25519.mul x y)
+      | _ => "bad-op"
+    | _, _ => "bad-op"
+  | ["sc.un", op, a] =>
+    match parseScalar a with
+    | some x =>
+      match op with
+      | "neg" => "ok " ++ sc (Scalar25519.neg x)
+      | "invert" => "ok " ++ sc (Scalar25519.invert x)
+      | _ => "bad-op"
+    | none => "bad-op"
+  | ["sc.fbmo", h] =>
+    match Bytes.ofHex h with
+    | some bs => "ok " ++ sc (Scalar25519.fromBytesModOrder bs)
+    | none => "bad-op"
+  | ["sc.wide", h] =>
+    match Bytes.ofHex h with
+    | some bs => "ok " ++ sc (Scalar25519.fromBytesModOrderWide bs)
+    | none => "bad-op"
+  | ["sc.canon", h] =>
+    match Bytes.ofHex h with
+    | some bs =>
+      match Scalar25519.fromCanonicalBytes bs with
+      | some v => "ok " ++ sc v
+      | none => "err"
+    | none => "bad-op"
+  | _ => "bad-op"
+
+def parsePoint (s : String) : Option Ristretto.Point := (Bytes.ofHex s).bind Ristretto.decompress
+
+def parsePoints (s : String) : Option (List Ristretto.Point) :=
+  if s = "-" ∨ s = "" then some [] else (s.splitOn ",").mapM parsePoint
+
+def pt (P : Ristretto.Point) : String := Bytes.toHex (Ristretto.compress P)
+
+def tf (b : Bool) : String := if b then "ok T" else "ok F"
+
+def handleRistretto (toks : List String) : String :=
+  match toks with
+  | ["ris.id"] => "ok " ++ pt Ristretto.identity
+  | ["ris.dec", h] =>
+    match Bytes.ofHex h with
+    | some bs =>
+      match Ristretto.decompress bs with
+      | some P => "ok " ++ pt P
+      | none => "err"
+    | none => "bad-op"
+  | ["ris.add", a, b] =>
+    match parsePoint a, parsePoint b with
+    | some P, some Q => "ok " ++ pt (Ristretto.add P Q)
+    | _, _ => "bad-op"
+  | ["ris.sub", a, b] =>
+    match parsePoint a, parsePoint b with
+    | some P, some Q => "ok " ++ pt (Ristretto.sub P Q)
+    | _, _ => "bad-op"
+  | ["ris.neg", a] =>
+    match parsePoint a with
+    | some P => "ok " ++ pt (Ristretto.neg P)
+    | none => "bad-op"
+  | ["ris.dbl", a] =>
+    match parsePoint a with
+    | some P => "ok " ++ pt (Ristretto.double P)
+    | none => "bad-op"
+  | ["ris.mul", k, a] =>
+    match parseScalar k, parsePoint a with
+    | some k, some P => "ok " ++ pt (Ristretto.scalarMul k P)
+    | _, _ => "bad-op"
+  | ["ris.mulb", kb, a] =>
+    match Bytes.ofHex kb, parsePoint a with
+    | some kb, some P => "ok " ++ pt (Ristretto.scalarMul (Scalar25519.fromBytesModOrder kb) P)
+    | _, _ => "bad-op"
+  | ["ris.base", k] =>
+    match parseScalar k with
+    | some k => "ok " ++ pt (Ristretto.scalarMul k Ristretto.basepoint)
+    | none => "bad-op"
+  | ["ris.lin", k1, a, k2, b] =>
+    match parseScalar k1, parsePoint a, parseScalar k2, parsePoint b with
+    | some k1, some P, some k2, some Q =>
+      "ok " ++ pt (Ristretto.add (Ristretto.scalarMul k1 P) (Ristretto.scalarMul k2 Q))
+    | _, _, _, _ => "bad-op"
+  | ["ris.uni", h] =>
+    match Bytes.ofHex h with
+    | some bs => "ok " ++ pt (Ristretto.fromUniformBytes bs)
+    | none => "bad-op"
+  | ["ris.unimul", h, k] =>
+    match Bytes.ofHex h, parseScalar k with
+    | some bs, some k => "ok " ++ pt (Ristretto.scalarMul k (Ristretto.fromUniformBytes bs))
+    | _, _ => "bad-op"
+  | ["ris.unieq", h1, h2, k] =>
+    -- equality of internal representatives that did not come from `decompress`
+    match Bytes.ofHex h1, Bytes.ofHex h2, parseScalar k with
+    | some b1, some b2, some k =>
+      let P := Ristretto.scalarMul k (Ristretto.fromUniformBytes b1)
+      let Q := Ristretto.fromUniformBytes b2
+      let R := Ristretto.sub (Ristretto.add P Q) Q
+      if Ristretto.eq P R != Ristretto.ctEq P R ∨ Ristretto.eq P Q != Ristretto.ctEq P Q then "eq-mismatch"
+      else (if Ristretto.eq P R then "ok T" else "ok F") ++ (if Ristretto.eq P Q then " T" else " F")
+    | _, _, _ => "bad-op"
+  | ["ris.eq", a, b] =>
+    match parsePoint a, parsePoint b with
+    | some P, some Q =>
+      if Ristretto.eq P Q != Ristretto.ctEq P Q then "eq-mismatch" else tf (Ristretto.eq P Q)
+    | _, _ => "bad-op"
+  | _ => "bad-op"
+
+def showErrKind {α : Type} (f : α → String) : Outcome α → String
+  | .ok a => f a
+  | .err k => "err:" ++ k
+  | .panic _ => "panic"
+
+def parseMd (s : String) : Option UInt8 :=
+  s.toNat?.bind fun n => if n < 256 then some (UInt8.ofNat n) else none
+
+def parseBool (s : String) : Option Bool :=
+  if s = "1" then some true else if s = "0" then some false else none
+
+/-- server material `key:k0:k1:s0:s1:mds` as `Server::new` sampled it -/
+def parseSrvSpec (s : String) : Option (Outcome Ppoprf.Server) :=
+  match s.splitOn ":" with
+  | [key, k0, k1, s0, s1, mds] =>
+    match parseScalar key, Bytes.ofHex k0, Bytes.ofHex k1, Bytes.ofHex s0, Bytes.ofHex s1, Bytes.ofHex mds with
+    | some key, some k0, some k1, some s0, some s1, some mds =>
+      some (Ppoprf.Server.new rops kF key k0 k1 s0 s1 mds)
+    | _, _, _, _, _, _ => none
+  | _ => none
+
+def pkEntries : Nat → Bytes → Option (List (UInt8 × Bytes))
+  | 0, [] => some []
+  | 0, _ :: _ => none
+  | _ + 1, [] => none
+  | n + 1, md :: rest =>
+    if rest.length < 32 then none
+    else (pkEntries n (rest.drop 32)).map fun l => (md, rest.take 32) :: l
+
+/-- `bincode::deserialize::<ServerPublicKey>` on well-formed input (entries are inserted in
+sequence, as serde does for a `BTreeMap`) -/
+def parsePkBincode (s : String) : Option Ppoprf.PublicKey :=
+  match Bytes.ofHex s with
+  | none => none
+  | some bs =>
+    if bs.length < 40 then none
+    else
+      let n := Bytes.toNatLE ((bs.drop 32).take 8)
+      if n > 256 then none
+      else
+        (pkEntries n (bs.drop 40)).map fun es =>
+          ⟨bs.take 32, es.foldl (fun acc e => Ppoprf.mdInsert e.1 e.2 acc) []⟩
+
+def parseProof (s : String) : Option (Option (Nat × Nat)) :=
+  if s = "none" then some none
+  else match s.splitOn ":" with
+    | [c, z] =>
+      match parseScalar c, parseScalar z with
+      | some c, some z => some (some (c, z))
+      | _, _ => none
+    | _ => none
+
+def showEval (r : Bytes × Option (Nat × Nat)) : String :=
+  match r.2 with
+  | none => Bytes.toHex r.1
+  | some (c, s) => Bytes.toHex r.1 ++ " " ++ sc c ++ " " ++ sc s
+
+def parseNonce (s : String) : Option Nat := if s = "-" then some 0 else parseScalar s
+
+def handlePp (toks : List String) : String :=
+  match toks with
+  | ["pp.blind", input, r] =>
+    match Bytes.ofHex input, parseScalar r with
+    | some inp, some r => "ok " ++ Bytes.toHex (Ppoprf.Client.blindWith rops kF inp r)
+    | _, _ => "bad-op"
+  | ["pp.new", spec] =>
+    match parseSrvSpec spec with
+    | some o => showErrKind (fun srv => "ok " ++ Bytes.toHex srv.getPublicKey.toBincode) o
+    | none => "bad-op"
+  | ["pp.eval", spec, point, md, v, nonce] =>
+    match parseSrvSpec spec, Bytes.ofHex point, parseMd md, parseBool v, parseNonce nonce with
+    | some o, some point, some md, some v, some nonce =>
+      showErrKind (fun r => "ok " ++ showEval r) (o.bind fun srv => Ppoprf.Server.eval rops kF srv point md v nonce)
+    | _, _, _, _, _ => "bad-op"
+  | ["pp.verify", pk, inp, out, proof, md] =>
+    match parsePkBincode pk, Bytes.ofHex inp, Bytes.ofHex out, parseProof proof, parseMd md with
+    | some pk, some inp, some out, some proof, some md =>
+      showErrKind tf (Ppoprf.Client.verify rops kF pk inp (out, proof) md)
+    | _, _, _, _, _ => "bad-op"
+  | ["pp.unblind", point, r] =>
+    match Bytes.ofHex point, parseScalar r with
+    | some point, some r => showErrKind (fun b => "ok " ++ Bytes.toHex b) (Ppoprf.Client.unblind rops point r)
+    | _, _ => "bad-op"
+  | ["pp.finalize", input, md, point] =>
+    match Bytes.ofHex input, parseMd md, Bytes.ofHex point with
+    | some inp, some md, some point => "ok " ++ Bytes.toHex (Ppoprf.Client.finalize kF inp md point)
+    | _, _, _ => "bad-op"
+  | ["pp.batch", key, pv, ps, qs, r] =>
+    match parseScalar key, parsePoint pv, parsePoints ps, parsePoints qs, parseScalar r with
+    | some key, some pv, some ps, some qs, some r =>
+      showErrKind (fun cs => "ok " ++ sc cs.1 ++ " " ++ sc cs.2) (Ppoprf.newBatch rops kF key pv ps qs r)
+    | _, _, _, _, _ => "bad-op"
+  | ["pp.vbatch", c, s, pv, ps, qs] =>
+    match parseScalar c, parseScalar s, parsePoint pv, parsePoints ps, parsePoints qs with
+    | some c, some s, some pv, some ps, some qs =>
+      showErrKind tf (Ppoprf.verifyBatch rops kF c s pv ps qs)
+    | _, _, _, _, _ => "bad-op"
+  | ["pp.proofload", h] =>
+    match Bytes.ofHex h with
+    | some bs =>
+      match Ppoprf.proofFromBincode bs with
+      | some (c, s) => "ok " ++ Bytes.toHex (Ppoprf.proofToBincode c s)
+      | none => "err"
+    | none => "bad-op"
+  | _ => "bad-op"
+
+/-- server slots of a history: slot ↦ model server -/
+abbrev Slots := List (Nat × Ppoprf.Server)
+
+def slotGet (sl : Slots) (i : Nat) : Option Ppoprf.Server := (sl.find? fun e => e.1 == i).map (·.2)
+def slotSet (sl : Slots) (i : Nat) (s : Ppoprf.Server) : Slots := (i, s) :: sl.filter fun e => e.1 != i
+
+/-- one operation of a server history; `none` on a malformed token -/
+def srvStep (sl : Slots) (tok : String) : Option (Slots × String) :=
+  match tok.splitOn ":" with
+  | ["new", slot, key, k0, k1, s0, s1, mds] =>
+    match slot.toNat?, parseSrvSpec (String.intercalate ":" [key, k0, k1, s0, s1, mds]) with
+    | some i, some (.ok srv) => some (slotSet sl i srv, "n")
+    | some _, some (.err k) => some (sl, "e:" ++ k)
+    | some _, some (.panic _) => some (sl, "panic")
+    | _, _ => none
+  | ["ev", slot, md, point, v, nonce] =>
+    match slot.toNat?.bind (slotGet sl), parseMd md, Bytes.ofHex point, parseBool v, parseNonce nonce with
+    | some srv, some md, some point, some v, some nonce =>
+      match Ppoprf.Server.eval rops kF srv point md v nonce with
+      | .ok (out, none) => some (sl, Bytes.toHex out)
+      | .ok (out, some (c, s)) => some (sl, Bytes.toHex out ++ "/" ++ sc c ++ "/" ++ sc s)
+      | .err k => some (sl, "e:" ++ k)
+      | .panic _ => some (sl, "panic")
+    | _, _, _, _, _ => none
+  | ["pu", slot, md] =>
+    match slot.toNat?, parseMd md with
+    | some i, some md =>
+      match slotGet sl i with
+      | some srv =>
+        match Ppoprf.Server.puncture kF srv md with
+        | .ok srv' => some (slotSet sl i srv', "k")
+        | .err k => some (sl, "e:" ++ k)
+        | .panic _ => some (sl, "panic")
+      | none => none
+    | _, _ => none
+  | [op, src, dst] =>
+    -- `cl`: `Server::clone`; `xi`: export + import of the key state into a fresh server.
+    -- Both yield a copy of the server value.
+    if op = "cl" ∨ op = "xi" then
+      match src.toNat?.bind (slotGet sl), dst.toNat? with
+      | some srv, some j => some (slotSet sl j srv, if op = "cl" then "c" else "x")
+      | _, _ => none
+    else none
+  | ["pk", slot] =>
+    match slot.toNat?.bind (slotGet sl) with
+    | some srv => some (sl, Bytes.toHex srv.getPublicKey.toBincode)
+    | none => none
+  | _ => none
+
+def srvRun : Slots → List String → Option (List String)
+  | _, [] => some []
+  | sl, tok :: rest =>
+    match srvStep sl tok with
+    | some (sl', a) => (srvRun sl' rest).map (a :: ·)
+    | none => none
+
+def handleSrv (toks : List String) : String :=
+  match toks with
+  | "srv.hist" :: ops =>
+    match srvRun [] ops with
+    | some ans => "ok " ++ String.intercalate "," ans
+    | none => "bad-op"
+  | _ => "bad-op"
+
 def handle (toks : List String) : String :=
   match toks with
   | ["keccak", h] =>
@@ -373,6 +664,10 @@ def handle (toks : List String) : String :=
     else if op.startsWith "star." ∨ op = "digest" then handleStar toks
     else if op.startsWith "wire." then handleWire toks
     else if op.startsWith "ggm." then handleGgm toks
+    else if op.startsWith "sc." then handleScalar toks
+    else if op.startsWith "ris." then handleRistretto toks
+    else if op.startsWith "pp." then handlePp toks
+    else if op.startsWith "srv." then handleSrv toks
     else "bad-op"
   | _ => "bad-op"
 
